@@ -77,6 +77,13 @@ static void world_reset(void) {
 static void free_hook(void *p) {
     for (int i = 0; i < nmsg; i++) if (MSG[i].used && MSG[i].autofree && MSG[i].payload == p) {
         if (MSG[i].freed++) vfail("PS.free", "PS.free|twice", "auto-free payload of message #%d released twice", i);
+        /* a held (batched / low priority) message is discarded when a pill sent after it stops the module: the library releases it before on_stop is seen */
+        for (int t = 0; t < NM; t++) { mod_t *m = &MD[t]; if (!m->present || m->st != S_RUNNING) continue;
+            int held = m->ever_batched; for (int q = 0; q < NPAT; q++) if (m->sub[q].present && m->sub[q].prio == PR_LOW) held = 1;
+            if (!held) continue;
+            int pill = -1; for (int k = 0; k < m->nmb; k++) if (m->mb[k].kind == 0 && MSG[m->mb[k].msg].topic == T_PILL) { pill = k; break; }
+            for (int k = 0; k < pill; k++) if (m->mb[k].kind == 0 && m->mb[k].msg == i && !m->mb[k].optional) { m->mb[k].optional = 1; MSG[i].owed--; }
+        }
         if (ON(R_FREE) && (MSG[i].owed - MSG[i].may_vanish > 0 || msg_busy[i] > 0) && !(MSG[i].rc_neg && MSG[i].delivered == 0))
             vfail("PS.free", "PS.free|early", "auto-free payload of message #%d released while %d recipient(s) still have to receive it%s", i, MSG[i].owed, msg_busy[i] ? " / a handler is using it" : "");
         return;
